@@ -41,7 +41,7 @@ CLAIMED = {
    note=TB + "Proof-partial: acceptance by the Go assembler and the machine-code branch targets are measured on sampled files, not proved. Finding F10: CALL with a label operand (label pruned; not assemblable)."),
  "C12": dict(cat="proof", tech="Lean 4 proofs about the stub printer model + exact correspondence modulo go/format + go/types, gofmt, go build, go vet measurement",
    text="parse_stubs / declared_once / stubs_match_asm / stub_constraints_eq: each function is declared exactly once in file order preceded by doc lines then pragmas, package clause as configured, constraint block identical to the assembly printer's. printer.NewStubs output equals go/format of the model's text on every case; every stub is parsed and type-checked (types.Identical signatures), gofmt idempotence checked, stub+asm packages built and vetted (asmdecl) on samples.",
-   note=TB + "Proof-partial: go/types.WriteSignature, go/format and the compiler are measured. Finding F15: doc comments with an indented line followed by a list item are not gofmt-stable."),
+   note=TB + "Proof-partial: go/types.WriteSignature, go/format and the compiler are measured. Finding F16: doc comments with an indented line followed by a list item are not gofmt-stable."),
  "C13": dict(cat="proof", tech="Lean 4 proofs about the data-section model + regenerated constant table + exact correspondence + assembler measurement",
    text="data_disjoint / data_image / overlap_rejected / int_text_roundtrip (all 8 integer types, all values) / string_text_roundtrip / data_lines for all placement sequences; constant format verbs regenerated from operand/zconst.go. Real build.Context/ir.Global placements compared exactly (data list, size, image, DATA/GLOBL lines); printed files assembled with go tool asm and the symbol bytes compared with the model image; floats measured against the assembler's own parse (float32 stratified/exhaustive tiers).",
    note=TB + "Proof-partial for floats (measured). Finding F14: out-of-order DATA offsets are accepted by avo and rejected by the assembler."),
